@@ -530,4 +530,160 @@ theorem InoOK_empty (allocs : List Nat) (hd : DistinctNZ allocs) :
   rw [MAXBLKS_eq]
   omega
 
+
+/-! ### a request that cannot finish the shrink says so -/
+
+theorem shrinkToB_reached (target : Nat) : ∀ (budget shrink : Nat) (s : S) (blks : List Nat),
+    target ≤ shrink → target ≤ (shrinkToB s blks target budget shrink).2.2 ∧
+      (shrinkToB s blks target budget shrink).2.2 ≤ shrink := by
+  intro budget
+  induction budget with
+  | zero => intro shrink s blks h; cases shrink <;> simp [shrinkToB] <;> omega
+  | succ b ih =>
+    intro shrink s blks h
+    cases shrink with
+    | zero => simp [shrinkToB]; omega
+    | succ n =>
+      unfold shrinkToB
+      by_cases ht : target < n + 1
+      · simp only [ht, if_true]
+        have := ih n (shrinkStep s blks n).1 (shrinkStep s blks n).2 (by omega)
+        omega
+      · simp only [ht, if_false]; omega
+
+/-- THE FLAG `Resize` RETURNS IS EXACT: the caller is told to start the background shrinker if
+    and only if the inode is left with blocks still to free (`IsShrinking`), whatever the
+    estimate said and however much room the transaction really had.  (Before fix b79792e the flag
+    was false whenever the estimate held — a 507-block file was left half-freed with nobody to
+    finish it.) -/
+theorem resize_flag_is_exact (s : S) (ino : Ino) (sz : Nat) (fits : Bool) (budget : Nat) :
+    (opResizeB s ino sz fits budget).2.2 = true ↔
+      (opResizeB s ino sz fits budget).2.1.shrink > roundUp (opResizeB s ino sz fits budget).2.1.size := by
+  unfold opResizeB
+  generalize (if ino.shrink > roundUp ino.size then ino.shrink else roundUp ino.size) = oldsz
+  generalize (if sz < ino.size ∧ sz % BlockSize ≠ 0 then
+      (let (s', blks', _, _) := bmap s ino.blks (sz / BlockSize); (s', blks')) else (s, ino.blks)) = st1
+  obtain ⟨s1, blks1⟩ := st1
+  simp only
+  by_cases hlt : roundUp sz < oldsz
+  · simp only [hlt, if_true]
+    cases fits with
+    | true =>
+      simp only [if_true]
+      generalize hres : shrinkToB s1 blks1 (roundUp sz) budget oldsz = res
+      obtain ⟨s2, blks2, reached⟩ := res
+      simp only [decide_eq_true_eq]
+    | false =>
+      simp only [Bool.false_eq_true, if_false, true_iff]
+      exact hlt
+  · simp only [hlt, if_false, Bool.false_eq_true, false_iff]
+    omega
+
+
+/-- a run of `Shrink` with a budget is the run down to wherever the budget lets it get -/
+theorem shrinkToB_eq (target : Nat) : ∀ (budget shrink : Nat) (s : S) (blks : List Nat), target ≤ shrink →
+    shrinkToB s blks target budget shrink =
+      ((shrinkTo s blks (max target (shrink - budget)) shrink).1,
+       (shrinkTo s blks (max target (shrink - budget)) shrink).2, max target (shrink - budget)) := by
+  intro budget
+  induction budget with
+  | zero =>
+    intro shrink s blks h
+    have hm : max target (shrink - 0) = shrink := by omega
+    rw [hm]
+    cases shrink with
+    | zero => simp [shrinkToB, shrinkTo]
+    | succ n => simp [shrinkToB, shrinkTo]
+  | succ b ih =>
+    intro shrink s blks h
+    cases shrink with
+    | zero =>
+      have : target = 0 := by omega
+      subst this
+      simp [shrinkToB, shrinkTo]
+    | succ n =>
+      unfold shrinkToB
+      by_cases ht : target < n + 1
+      · simp only [ht, if_true]
+        rw [ih n (shrinkStep s blks n).1 (shrinkStep s blks n).2 (by omega)]
+        have hm : max target (n + 1 - (b + 1)) = max target (n - b) := by omega
+        rw [hm]
+        conv => rhs; unfold shrinkTo
+        have hlt : max target (n - b) < n + 1 := by omega
+        simp only [hlt, if_true]
+      · simp only [ht, if_false]
+        have hm : max target (n + 1 - (b + 1)) = n + 1 := by omega
+        rw [hm]
+        conv => rhs; unfold shrinkTo
+        simp
+
+/-- … so a request that runs out of room leaves the file exactly as the bookkeeping says: nothing
+    mapped from its new ShrinkSize on, the tree well-formed — the rest is the shrinker's. -/
+theorem opResizeB_ok (s : S) (ino : Ino) (sz : Nat) (fits : Bool) (budget : Nat) (h : InoOK s ino)
+    (hsz : roundUp sz ≤ MAXBLKS) :
+    InoOK (opResizeB s ino sz fits budget).1 (opResizeB s ino sz fits budget).2.1 := by
+  unfold opResizeB
+  have hold : (if ino.shrink > roundUp ino.size then ino.shrink else roundUp ino.size) = bound ino := by
+    simp only [bound]; split <;> omega
+  rw [hold]
+  have hstep : ∀ (s1 : S) (blks1 : List Nat),
+      (s1, blks1) = (if sz < ino.size ∧ sz % BlockSize ≠ 0 then
+          ((bmap s ino.blks (sz / BlockSize)).1, (bmap s ino.blks (sz / BlockSize)).2.1) else (s, ino.blks)) →
+      WFB s1 blks1 ∧ EmptyFrom s1.st blks1 (bound ino) := by
+    intro s1 blks1 he
+    by_cases hc : sz < ino.size ∧ sz % BlockSize ≠ 0
+    · rw [if_pos hc] at he
+      simp only [Prod.mk.injEq] at he
+      have hlt : sz / BlockSize < bound ino := by
+        have : sz / BlockSize < roundUp ino.size := by
+          simp only [roundUp, BlockSize] at *; omega
+        simp only [bound]; omega
+      have hbn : sz / BlockSize < NDIRECT + NBLKBLK + NBLKBLK * NBLKBLK := by
+        have := h.le; rw [MAXBLKS_eq] at this; omega
+      rw [he.1, he.2]
+      exact ⟨(bmap_ok s ino.blks _ h.wf hbn).wf, bmap_keeps_empty s ino.blks _ _ h.wf hbn hlt h.empty⟩
+    · rw [if_neg hc] at he
+      simp only [Prod.mk.injEq] at he
+      rw [he.1, he.2]
+      exact ⟨h.wf, h.empty⟩
+  generalize hs1 : (if sz < ino.size ∧ sz % BlockSize ≠ 0 then
+      (let (s', blks', _, _) := bmap s ino.blks (sz / BlockSize); (s', blks')) else (s, ino.blks)) = st1
+  have hs1' : st1 = (if sz < ino.size ∧ sz % BlockSize ≠ 0 then
+      ((bmap s ino.blks (sz / BlockSize)).1, (bmap s ino.blks (sz / BlockSize)).2.1) else (s, ino.blks)) := by
+    rw [← hs1]
+  obtain ⟨s1, blks1⟩ := st1
+  obtain ⟨hw1, he1⟩ := hstep s1 blks1 hs1'
+  simp only
+  by_cases hsh : roundUp sz < bound ino
+  · simp only [hsh, if_true]
+    cases fits with
+    | true =>
+      simp only [if_true]
+      rw [shrinkToB_eq (roundUp sz) budget (bound ino) s1 blks1 (by omega)]
+      simp only
+      generalize hT : max (roundUp sz) (bound ino - budget) = T
+      have hTle : T ≤ bound ino := by omega
+      have hTge : roundUp sz ≤ T := by omega
+      have hwf := shrinkTo_wf s1 blks1 T (bound ino) hw1 h.le he1
+      obtain ⟨_, _, hp, _, _⟩ := shrinkTo_ok T (bound ino) s1 blks1 hw1.len hw1.inj h.le he1
+      generalize hres : shrinkTo s1 blks1 T (bound ino) = res at hwf hp
+      obtain ⟨s2, blks2⟩ := res
+      simp only at hwf hp ⊢
+      have hb : bound { blks := blks2, size := sz, shrink := T } = T := by simp only [bound]; omega
+      refine ⟨hwf, by rw [hb]; have := h.le; omega, ?_⟩
+      rw [hb]
+      intro q hq hge
+      show ptr s2.st blks2 q = 0
+      rw [hp q hq, if_pos hge]
+    | false =>
+      simp only [Bool.false_eq_true, if_false]
+      have hb : bound { blks := blks1, size := sz, shrink := bound ino } = bound ino := by
+        have hsh' := hsh
+        simp only [bound] at hsh' ⊢; omega
+      exact ⟨hw1, by rw [hb]; exact h.le, by rw [hb]; exact he1⟩
+  · simp only [hsh, if_false]
+    refine ⟨hw1, by simp only [bound, Nat.max_self]; exact hsz, ?_⟩
+    simp only [bound, Nat.max_self]
+    exact he1.mono (by omega)
+
 end GoNfsd.Model.BlockMap
